@@ -41,8 +41,10 @@ func (ctx *RenderContext) ApplyFilter(name string, value interface{}, args ...in
 		b.Grow(len(str) + len(str)/8)
 
 		// Single-pass iteration is much more efficient than nested Replace calls
-		for _, c := range str {
-			switch c {
+		// All escaped characters are ASCII, so work on bytes: ranging over runes would
+		// replace invalid UTF-8 sequences instead of passing them through
+		for i := 0; i < len(str); i++ {
+			switch c := str[i]; c {
 			case '&':
 				b.WriteString("&amp;")
 			case '<':
@@ -54,7 +56,7 @@ func (ctx *RenderContext) ApplyFilter(name string, value interface{}, args ...in
 			case '\'':
 				b.WriteString("&#39;")
 			default:
-				b.WriteRune(c)
+				b.WriteByte(c)
 			}
 		}
 
